@@ -476,6 +476,25 @@ pub fn run_case(prog: &Vec<Vec<Step>>, hist: &[Act]) -> Result<(), Fail> {
         // every failed check is reported (C18), whatever else happens to the task
         let failed_checks = ev.iter().filter(|e| !e.start && e.verdict == "error").count();
         if errs != failed_checks { fail!("C18", "C18.bounded.check_errors_are_reported", "{} checks failed with an error during the bottom-up build, the session reports {} dependency check errors", failed_checks, errs); }
+        // C09 "... always does when its owner is validated": a change REPORTED to the bottom-up build validates every recorded read and
+        // write dependency on that resource -- each such task is checked inside the bracket of that report (or is already waiting)
+        {
+          let first_build = ev.iter().position(|e| e.kind == "build" && e.start).unwrap_or(ev.len());
+          let mut from = 0usize;
+          for r in &ch {
+            let subj = format!("Res({})", r);
+            let s = match ev[from..first_build].iter().position(|e| e.start && e.kind == "sched_res" && e.subject == subj) { Some(p) => from + p, None => fail!("C17", "C17.bounded.reported_change_is_bracketed", "no schedule-affected-by-resource event for the reported {}", subj) };
+            let en = match ev[s..first_build].iter().position(|e| !e.start && e.kind == "sched_res" && e.subject == subj) { Some(p) => s + p, None => fail!("C17", "C17.bounded.reported_change_is_bracketed", "the report of {} is not closed before the build starts", subj) };
+            let waiting: Vec<&String> = ev[..s].iter().filter(|e| e.kind == "schedule").map(|e| &e.subject).collect();
+            let checked: Vec<&String> = ev[s..en].iter().filter(|e| e.kind == "check_read" && !e.start).map(|e| &e.subject).collect();
+            let mut owners: Vec<&String> = model.deps.iter().filter(|(t, ds)| model.completed.contains(*t) && ds.iter().any(|d| (d.kind == "read" || d.kind == "write") && d.subject == subj)).map(|(t, _)| t).collect();
+            owners.sort();
+            for t in owners {
+              if !checked.contains(&t) && !waiting.contains(&t) { fail!("C09", "C09.bounded.reported_change_validates_every_reader_and_writer", "{} has a recorded dependency on {}, which was reported as changed, but that dependency was not checked", t, subj); }
+            }
+            from = en + 1;
+          }
+        }
         // scheduling follows the verdict of the dependency's own checker: not consistent (or failed) <=> the task is scheduled: `schedule`
         // is the next event, or the task is already waiting (scheduled earlier in this build and not executed yet)
         {
